@@ -4,7 +4,7 @@ Clients are duplicated write ends held by this process (closing one = that clien
 barrier (REGISTER + MAYBE_UNLINK of a fresh file; FIFO pipe, single reader) proves that all earlier requests were processed."""
 import sys, os, json, time, shutil, signal
 
-GARBAGE = [b"NOCOLON\n", b"REGISTER:x:weird\n", b"FOO:x:file\n", b"\xff\xfe:x:file\n", b":::\n", b"MAYBE_UNLINK::file\n"]
+GARBAGE = [b"NOCOLON\n", b"REGISTER:x:weird\n", b"FOO:x:file\n", b"\xff\xfe:x:file\n", b":::\n", b"MAYBE_UNLINK::file\n", b"\n", b"   \n"]
 
 
 def main():
@@ -44,7 +44,8 @@ def main():
         def barrier(c):
             nsent[0] += 1
             s = os.path.join(d, "sentinel%d" % nsent[0]); open(s, "w").close()
-            os.write(fds[c], ("REGISTER:%s:file\nMAYBE_UNLINK:%s:file\n" % (s, s)).encode())
+            try: os.write(fds[c], ("REGISTER:%s:file\nMAYBE_UNLINK:%s:file\n" % (s, s)).encode())
+            except OSError: return False          # nobody reads any more: the tracker is gone
             t0 = time.time()
             while os.path.exists(s):
                 if time.time() - t0 > 10: return False
@@ -57,11 +58,19 @@ def main():
                 eof_seen = True; break
             if cmd == "GONE":
                 os.close(fds.pop(e["c"])); continue
+            if cmd == "CREATE":
+                if e["x"] in ("d", "e", "h"): os.makedirs(paths[e["x"]], exist_ok=True)
+                else: open(paths[e["x"]], "w").write("again")
+                continue
             c = e["c"]
             rtype = "folder" if e["x"] in ("d", "e", "h") else "file"
-            if cmd == "GARBAGE": os.write(fds[c], GARBAGE[k % len(GARBAGE)])
-            else: os.write(fds[c], ("%s:%s:%s\n" % (cmd, paths[e["x"]], rtype)).encode())
-            if not barrier(c):
+            try:
+                if cmd == "GARBAGE": os.write(fds[c], GARBAGE[k % len(GARBAGE)])
+                else: os.write(fds[c], ("%s:%s:%s\n" % (cmd, paths[e["x"]], rtype)).encode())
+                sent = True
+            except OSError:
+                sent = False
+            if not sent or not barrier(c):
                 rec["problems"].append({"kind": "tracker_stopped", "step": k, "after": [cmd, e["x"]]}); dead = True; break
             rec["synced"] += 1
             ex = {n for n, p in paths.items() if os.path.exists(p)}
@@ -93,7 +102,7 @@ def main():
         if job.get("hook") and os.path.exists(trace):
             evs = [json.loads(l) for l in open(trace)]
             mine = [x for x in evs if x["ev"] != "EOF" and "sentinel" not in x.get("name", "")]
-            reqs = [e for e in hist if e["cmd"] in ("REGISTER", "UNREGISTER", "MAYBE_UNLINK", "GARBAGE")][:len(mine)]
+            reqs = [e for e in hist if e["cmd"] in ("REGISTER", "UNREGISTER", "MAYBE_UNLINK", "GARBAGE")][:len(mine)]     # (CREATE does not go through the tracker)
             rec["count_mismatch"] = sum(1 for a, b in zip(mine, reqs) if a["ev"] != "error" and b["cmd"] != "GARBAGE" and a["count"] != b["cnt"][b["x"]])
             rec["hook_events"] = len(evs)
         out.append(rec)
